@@ -91,6 +91,9 @@ pub struct Interp<'c, Q: Queue> {
     pub trace: Option<Vec<TraceEv>>,
     /// a clone kept aside by Op::Snapshot (with its model), the source of Op::RestoreFrom
     pub snapshot: Option<(Q, Model, bool)>,
+    /// set by an operation after which the order is unspecified once its own observation is done
+    /// (late writes through iter_mut references, known finding F7)
+    pub pending_order_off: bool,
 }
 
 /// normalized return value for cross-execution comparison (C18): shape + priorities; ids only
@@ -654,6 +657,7 @@ impl<'c, Q: Queue> Interp<'c, Q> {
             force_drain: true,
             trace: if want_trace { Some(Vec::new()) } else { None },
             snapshot: None,
+            pending_order_off: false,
         };
         it.stats.hit(match case.ctor.how {
             CtorKind::FromVec => "ctor_from_vec",
@@ -683,7 +687,14 @@ impl<'c, Q: Queue> Interp<'c, Q> {
         self.apply(op);
         crate::runner::AFTER_SPECIAL.with(|a| a.set(self.after_special));
         self.check_state();
-        self.finish_step()
+        let r = self.finish_step();
+        if self.pending_order_off {
+            self.pending_order_off = false;
+            if !self.model.is_empty() {
+                self.order_on = false;
+            }
+        }
+        r
     }
 
     pub fn size_events(&mut self) {
